@@ -19,7 +19,8 @@ fn viol(kind: &str, d: String) {
 pub const GUEST_CID: u64 = 0x0000_0001_0000_0003;
 /// Peers differing from the first in exactly one field each: port only, cid only.
 pub const PEERS3: [VsockAddr; 3] = [VsockAddr { cid: 2, port: 80 }, VsockAddr { cid: 2, port: 81 }, VsockAddr { cid: 5, port: 80 }];
-pub const LPORTS: [u32; 2] = [1, 2];
+/// Local ports; alphabets 0..3 use the first one or two, the listening-table alphabet (4) all.
+pub const LPORTS: [u32; 4] = [1, 2, 3, 4];
 pub const CAP: u32 = 4;
 pub const PEER_BUF: u32 = 16;
 
@@ -104,11 +105,21 @@ impl TransportVisitor for V {
         // Local operations: (kind, peer, lport, arg)
         let npeers = if self.level >= 1 { 2 } else { 1 };
         let nports = if self.level >= 1 { 2 } else { 1 };
-        for lp in 0..nports {
+        // Alphabet 4: the listening table. Three ports can be listened on and unlistened in any
+        // order; connection requests arrive for those and for a port never listened on.
+        let table = self.level == 4;
+        for lp in 0..if table { 3 } else { nports } {
             menu.push((0, 0, lp, 0)); // listen
         }
-        menu.push((1, 0, 0, 0)); // unlisten(port 1)
-        for p in 0..npeers {
+        for lp in 0..if table { 3 } else { 1 } {
+            menu.push((1, 0, lp, 0)); // unlisten
+        }
+        if table {
+            for lp in 0..4 {
+                menu.push((9, 0, lp, 0)); // REQUEST from the first peer
+            }
+        }
+        for p in 0..if table { 0 } else { npeers } {
             for lp in 0..nports {
                 menu.push((2, p, lp, 0)); // connect
             }
@@ -116,20 +127,24 @@ impl TransportVisitor for V {
             menu.push((4, p, 0, 0)); // recv
             menu.push((6, p, 0, 0)); // force_close
         }
-        menu.push((5, 0, 0, 0)); // shutdown(A,1)
-        menu.push((7, 0, 0, 0)); // update_credit(A,1)
-        menu.push((8, 0, 0, 0)); // poll (nothing pending)
+        if !table {
+            menu.push((5, 0, 0, 0)); // shutdown(A,1)
+            menu.push((7, 0, 0, 0)); // update_credit(A,1)
+            menu.push((8, 0, 0, 0)); // poll (nothing pending)
+        }
         // Peer packets: (9, peer, lport, op index)
         let ops: [u16; 9] = [OP_REQUEST, OP_RESPONSE, OP_RST, OP_SHUTDOWN, OP_RW, OP_CREDIT_UPDATE, OP_CREDIT_REQUEST, 0, 9];
-        for p in 0..npeers {
+        for p in 0..if table { 0 } else { npeers } {
             for lp in 0..nports {
                 for oi in 0..ops.len() {
                     menu.push((9, p, lp, oi));
                 }
             }
         }
-        menu.push((10, 0, 0, 0)); // REQUEST for a foreign cid
-        menu.push((10, 0, 0, 4)); // RW for a foreign cid
+        if !table {
+            menu.push((10, 0, 0, 0)); // REQUEST for a foreign cid
+            menu.push((10, 0, 0, 4)); // RW for a foreign cid
+        }
         for step in 0..self.depth {
             let (kind, pi, lpi, arg) = menu[choose(menu.len(), "vsock state-machine event")];
             let peer = PEERS[pi];
